@@ -711,50 +711,7 @@ class Evaluator:
             return False
         if isinstance(st, ast.If):
             c = truthy(self.expr(st.test, env, fr))
-            if isinstance(c, Const):
-                return self.block(st.body if c.v else st.orelse, env, pc, fr)
-            e1 = _copy_env(env)
-            e2 = _copy_env(env)
-            assume_env(e1, c, True)
-            assume_env(e2, c, False)
-            objs = _reachable_objs(env, fr)
-            snap = [(o, dict(o.fields)) for o in objs]
-            f1 = self.block(st.body, e1, pc + [c], fr)
-            after1 = [dict(o.fields) for o in objs]
-            for o, flds in snap:
-                o.fields = dict(flds)
-            f2 = self.block(st.orelse, e2, pc + [mk_not(c)], fr)
-            after2 = [dict(o.fields) for o in objs]
-            for o, a1, a2 in zip(objs, after1, after2):
-                if f1 and f2:
-                    merged = {}
-                    for k in set(a1) | set(a2):
-                        if k in a1 and k in a2:
-                            merged[k] = mk_ite(c, a1[k], a2[k])
-                        else:
-                            merged[k] = mk_ite(c, a1.get(k, Unknown(f'field {k} unset on one path')),
-                                               a2.get(k, Unknown(f'field {k} unset on one path')))
-                    o.fields = merged
-                elif f1:
-                    o.fields = a1
-                else:
-                    o.fields = a2
-            if f1 and f2:
-                for k in set(e1) | set(e2):
-                    a = e1.get(k, Unknown(f'{k} undefined on one path'))
-                    b = e2.get(k, Unknown(f'{k} undefined on one path'))
-                    env[k] = mk_ite(c, a, b)
-                _merge_objs(env)
-                return True
-            if f1:
-                env.clear(); env.update(e1)
-                pc.append(c)
-                return True
-            if f2:
-                env.clear(); env.update(e2)
-                pc.append(mk_not(c))
-                return True
-            return False
+            return self.branch(c, st.body, st.orelse, env, pc, fr)
         if isinstance(st, ast.For):
             it = self.expr(st.iter, env, fr)
             items = _iter_items(it)
@@ -801,6 +758,13 @@ class Evaluator:
                     self.assign(it.optional_vars, v, env, fr)
             return self.block(st.body, env, pc, fr)
         if isinstance(st, ast.Try):
+            conv = self._conversion_guard(st, env, fr)
+            if conv is not None:
+                # try: x = float(v) ... except (ValueError, TypeError): <handler>  ==  if converts(v): ... else: <handler>
+                ok = self.branch(conv[0], list(st.body) + list(st.orelse), conv[1].body, env, pc, fr)
+                if st.finalbody:
+                    ok = self.block(st.finalbody, env, pc, fr) and ok
+                return ok
             ok = self.block(st.body, env, pc, fr)
             if ok and st.orelse:
                 ok = self.block(st.orelse, env, pc, fr)
@@ -829,6 +793,85 @@ class Evaluator:
         if isinstance(st, ast.Break):
             return False
         raise AnalysisError('VG', fr.fi.qualname, f'statement kind {type(st).__name__}')
+
+    def _conversion_guard(self, st, env, fr):
+        """(condition, handler) when the first statement of a try body converts a non-numeric value with
+        float()/int() and a handler catches the conversion error; None otherwise."""
+        if not st.handlers or not st.body:
+            return None
+        handler = None
+        for h in st.handlers:
+            names = []
+            if h.type is None:
+                names = ['Exception']
+            elif isinstance(h.type, ast.Tuple):
+                names = [ast.unparse(e) for e in h.type.elts]
+            else:
+                names = [ast.unparse(h.type)]
+            if set(names) & {'ValueError', 'TypeError', 'Exception', 'BaseException'}:
+                handler = h
+                break
+        if handler is None:
+            return None
+        for node in ast.walk(st.body[0]):
+            if isinstance(node, ast.Call) and isinstance(node.func, ast.Name) and node.func.id in ('float', 'int') \
+                    and len(node.args) == 1 and not node.keywords and node.func.id not in env:
+                a = unq(self.expr(node.args[0], env, fr))
+                if is_num(a) or (isinstance(a, Const) and isinstance(a.v, (int, float))):
+                    return None
+                if isinstance(a, (Tup, DictV)):
+                    return Const(False), handler       # float(list) always raises TypeError
+                return truthy(App('converts:' + node.func.id, (a,))), handler
+        return None
+
+    def branch(self, c, body, orelse, env, pc, fr):
+        """two-armed join: body under c, orelse under not c; gated merge of variables and object fields."""
+        st = type('S', (), {'body': body, 'orelse': orelse})
+        if True:
+            if isinstance(c, Const):
+                return self.block(st.body if c.v else st.orelse, env, pc, fr)
+            e1 = _copy_env(env)
+            e2 = _copy_env(env)
+            assume_env(e1, c, True)
+            assume_env(e2, c, False)
+            objs = _reachable_objs(env, fr)
+            snap = [(o, dict(o.fields)) for o in objs]
+            f1 = self.block(st.body, e1, pc + [c], fr)
+            after1 = [dict(o.fields) for o in objs]
+            for o, flds in snap:
+                o.fields = dict(flds)
+            f2 = self.block(st.orelse, e2, pc + [mk_not(c)], fr)
+            after2 = [dict(o.fields) for o in objs]
+            for o, a1, a2 in zip(objs, after1, after2):
+                if f1 and f2:
+                    merged = {}
+                    for k in set(a1) | set(a2):
+                        if k in a1 and k in a2:
+                            merged[k] = mk_ite(c, a1[k], a2[k])
+                        else:
+                            merged[k] = mk_ite(c, a1.get(k, Unknown(f'field {k} unset on one path')),
+                                               a2.get(k, Unknown(f'field {k} unset on one path')))
+                    o.fields = merged
+                elif f1:
+                    o.fields = a1
+                else:
+                    o.fields = a2
+            if f1 and f2:
+                for k in set(e1) | set(e2):
+                    a = e1.get(k, Unknown(f'{k} undefined on one path'))
+                    b = e2.get(k, Unknown(f'{k} undefined on one path'))
+                    env[k] = mk_ite(c, a, b)
+                _merge_objs(env)
+                return True
+            if f1:
+                env.clear(); env.update(e1)
+                pc.append(c)
+                return True
+            if f2:
+                env.clear(); env.update(e2)
+                pc.append(mk_not(c))
+                return True
+            return False
 
     def assign(self, t, v, env, fr):
         if isinstance(t, ast.Name):
@@ -1395,6 +1438,15 @@ class Evaluator:
                     return Const(None)
                 env[n.func.value.id] = Unknown('list extended by symbolic iterable')
                 return Const(None)
+            if isinstance(base, Tup) and base.kind == 'list' and isinstance(n.func.value, ast.Subscript) \
+                    and n.func.attr in ('append', 'extend') and len(args) == 1:
+                # d[k].append(x) on a keyed dict value: rebind the entry
+                holder = self.expr(n.func.value.value, env, fr)
+                key = self.expr(n.func.value.slice, env, fr)
+                more = (args[0],) if n.func.attr == 'append' else _iter_items(args[0])
+                if isinstance(holder, DictV) and isinstance(key, Const) and more is not None:
+                    holder.set(key.v, Tup(base.items + tuple(more), 'list'))
+                    return Const(None)
             r = self.method_call(base, n.func.attr, args, kwargs, fr, n)
             if r is not NotImplemented:
                 return r
